@@ -76,13 +76,21 @@ type c02tEnt struct {
 	rej  bool
 	// marked by AdjRib.StaleAll since it was stored
 	stale bool
+	// an attribute the decision process ignores (a community value): Path.Equal sees it
+	attr uint32
+	// the object handed to TableManager.Update (the caller keeps it, as the Adj-RIB-In does)
+	obj *Path
 }
 
 type c02tMeta struct {
 	src, tag int
 	rid      uint32
 	lp       uint32
+	attr     uint32
 }
+
+// the attributes Path.Equal sees: LOCAL_PREF and the community
+func (m c02tMeta) val() uint64 { return uint64(m.lp)<<8 | uint64(m.attr) }
 
 type c02tW struct {
 	t   *testing.T
@@ -119,9 +127,20 @@ type c02tW struct {
 	lpClasses int
 	// consumers of the notification streams, per Loc-RIB table and prefix:
 	// multipath (source, path-id) → LOCAL_PREF, and best path → (source, LOCAL_PREF)
-	mpCons   map[int]map[string]map[[2]int]uint32
-	bestCons map[int]map[string][2]int
-	hist     []string
+	mpCons   map[int]map[string]map[[2]int]uint64
+	bestCons map[int]map[string][3]int
+	// the watcher's MultiPathList: replaced by GetChanges' third result whenever that is non-nil;
+	// one "source:local-pref:community" per position
+	multiCons map[int]map[string]string
+	// the community of the next announcement (newPathF reads it)
+	curAttr uint32
+	// every path object handed TO the table or the AdjRib, with what it looked like then
+	inputs    []c02tInput
+	inputFail map[string]int
+	// objects taken out of the Loc-RIB by a local withdrawal (a clone), to be handed in again
+	replays []c02tReplay
+	noLid   bool
+	hist    []string
 }
 
 func c02tTok(p netip.Prefix) (fam int, tok, show string) {
@@ -274,6 +293,56 @@ func (w *c02tW) setup() {
 	}
 }
 
+// a path object the harness handed in and kept (as the Adj-RIB-In keeps what it gave to the Loc-RIB)
+type c02tInput struct {
+	sink string
+	path *Path
+	adj  bool
+	snap string
+	what string
+}
+
+type c02tReplay struct {
+	p *c02tPfx
+	e c02tEnt
+}
+
+// what the caller may rely on.  Not included, because the code under test sets them by design:
+// localID (Calculate), and on Adj-RIB-In inputs dropped (set on every withdrawal), the timestamp
+// (kept from an equal predecessor) and stale (StaleAll marks the shared origin info).
+func c02tInSnap(p *Path, adj bool) string {
+	lp, _ := p.GetLocalPref()
+	s := fmt.Sprintf("withdraw=%v nhinvalid=%v rid=%d rejected=%v family=%s attrs=%d lp=%d comm=%v parent=%v src=%p nlri=%p",
+		p.IsWithdraw, p.IsNexthopInvalid, p.remoteID, p.rejected, p.family, len(p.pathAttrs), lp, p.GetCommunities(), p.parent != nil, p.OriginInfo().source, p.OriginInfo().nlri)
+	if !adj {
+		s += fmt.Sprintf(" dropped=%v stale=%v ts=%d", p.dropped, p.OriginInfo().stale, p.OriginInfo().timestamp)
+	}
+	return s
+}
+
+func (w *c02tW) input(sink, what string, p *Path, adj bool) {
+	w.inputs = append(w.inputs, c02tInput{sink: sink, path: p, adj: adj, snap: c02tInSnap(p, adj), what: what})
+	w.o.stat("input_paths_kept", 1)
+}
+
+// the table must never modify a path object it was given
+func (w *c02tW) recheckInputs() {
+	for i := range w.inputs {
+		in := &w.inputs[i]
+		if now := c02tInSnap(in.path, in.adj); now != in.snap {
+			cls := "c02t-input-path-modified:" + in.sink
+			if w.inputFail == nil {
+				w.inputFail = map[string]int{}
+			}
+			if w.inputFail[cls]++; w.inputFail[cls] <= 25 {
+				w.fail(cls, "the path object handed to %s (%s) was [%s] and is now [%s]", in.sink, in.what, in.snap, now)
+			}
+			in.snap = now
+		}
+	}
+	w.o.stat("input_path_reinspections", len(w.inputs))
+}
+
 // a value some accessor handed out, with the way to render it again
 type c02tHeld struct {
 	acc, what string
@@ -285,17 +354,27 @@ type c02tHeld struct {
 const c02tHoldOps = 5 // a handed-out value is re-inspected after each of the next operations
 
 func (w *c02tW) hold(acc, what string, render func() string) {
-	w.held = append(w.held, c02tHeld{acc: acc, what: what, at: w.opn, render: render, orig: render()})
+	// Path.localID is (re)written by Calculate on the shared path object when the same object is handed
+	// in again (implicitWithdraw: newPath.localID = path.localID) — by design, see c02tInSnap; kept
+	// values are therefore rendered without it
+	w.noLid = true
+	orig := render()
+	w.noLid = false
+	w.held = append(w.held, c02tHeld{acc: acc, what: what, at: w.opn, render: render, orig: orig})
 	w.o.stat("held_values", 1)
 }
 
 // recheck runs after every single table operation: what readers were given earlier must not have moved
 func (w *c02tW) recheck() {
 	w.opn++
+	w.recheckInputs()
 	keep := w.held[:0]
 	for _, h := range w.held {
 		w.o.stat("held_value_reinspections", 1)
-		if now := h.render(); now != h.orig {
+		w.noLid = true
+		now := h.render()
+		w.noLid = false
+		if now != h.orig {
 			cls := "c02t-handed-out-value-changed:" + h.acc
 			if w.heldFail == nil {
 				w.heldFail = map[string]int{}
@@ -339,8 +418,11 @@ func (w *c02tW) reset() {
 	w.active = []int{1, 2, 3, 4}
 	w.lpClasses = 0
 	w.leak = map[int]map[string]int{1: {}, 2: {}}
-	w.mpCons = map[int]map[string]map[[2]int]uint32{1: {}, 2: {}}
-	w.bestCons = map[int]map[string][2]int{1: {}, 2: {}}
+	w.multiCons = map[int]map[string]string{1: {}, 2: {}}
+	w.inputs = w.inputs[:0]
+	w.replays = w.replays[:0]
+	w.mpCons = map[int]map[string]map[[2]int]uint64{1: {}, 2: {}}
+	w.bestCons = map[int]map[string][3]int{1: {}, 2: {}}
 	w.hist = w.hist[:0]
 	w.o.op("new 1 0")
 	w.o.op("new 2 0")
@@ -383,6 +465,7 @@ func (w *c02tW) newPathF(fam bgp.Family, p *c02tPfx, src int, rid uint32, rank u
 			attrs = append(attrs, mp)
 		}
 		attrs = append(attrs, bgp.NewPathAttributeLocalPref(uint32(rank>>32)))
+		attrs = append(attrs, bgp.NewPathAttributeCommunities([]uint32{65000<<16 | w.curAttr}))
 	}
 	return NewPath(fam, w.src[src], bgp.PathNLRI{NLRI: p.nlri, ID: rid}, withdraw, attrs, ts, false)
 }
@@ -401,23 +484,23 @@ func (w *c02tW) nextRank(tag int) uint64 {
 }
 
 // the multipath set the op log predicts for a destination: the best path and every path of the same cost
-func (w *c02tW) expectMulti(tab int, p *c02tPfx) map[[2]int]uint32 {
+func (w *c02tW) expectMulti(tab int, p *c02tPfx) map[[2]int]uint64 {
 	l := append([]c02tEnt{}, w.want[tab][p.show]...)
 	sort.Slice(l, func(i, j int) bool { return l[i].rank > l[j].rank })
-	m := map[[2]int]uint32{}
+	m := map[[2]int]uint64{}
 	for _, e := range l {
 		if e.rank>>32 != l[0].rank>>32 {
 			break
 		}
-		m[[2]int{e.src, int(e.rid)}] = uint32(e.rank >> 32)
+		m[[2]int{e.src, int(e.rid)}] = e.rank>>32<<8 | uint64(e.attr)
 	}
 	return m
 }
 
-func c02tMpStr(m map[[2]int]uint32) string {
+func c02tMpStr(m map[[2]int]uint64) string {
 	l := make([]string, 0, len(m))
 	for k, lp := range m {
-		l = append(l, fmt.Sprintf("%d.%d:%d", k[0], k[1], lp))
+		l = append(l, fmt.Sprintf("%d.%d:%d/%d", k[0], k[1], lp>>8, lp&255))
 	}
 	sort.Strings(l)
 	return strings.Join(l, ",")
@@ -435,7 +518,7 @@ func (w *c02tW) stream(what string, p *c02tPfx, us []*Update) {
 		w.o.ask("u="+w.pathsStr(upd)+" w="+w.pathsStr(wd), "mpdiff %d", lt)
 		cons := w.mpCons[lt][p.show]
 		if cons == nil {
-			cons = map[[2]int]uint32{}
+			cons = map[[2]int]uint64{}
 			w.mpCons[lt][p.show] = cons
 		}
 		before := c02tMpStr(cons)
@@ -449,22 +532,24 @@ func (w *c02tW) stream(what string, p *c02tPfx, us []*Update) {
 		}
 		for _, x := range upd {
 			if m, ok := w.meta[x.root()]; ok {
-				cons[[2]int{m.src, int(m.rid)}] = m.lp
+				cons[[2]int{m.src, int(m.rid)}] = m.val()
 			}
 		}
 		if len(upd) > 0 || len(wd) > 0 {
 			w.o.stat("multipath_notifications", 1)
 		}
 		// the table's own multipath set now
-		tbl := map[[2]int]uint32{}
+		tbl := map[[2]int]uint64{}
+		var tblList []*Path
 		d := w.tm.GetDestination(w.newPath(p, 1, 0, 0, true))
 		ans := "nil"
 		if d != nil {
 			mb := d.GetMultiBestPath(GLOBAL_RIB_NAME)
+			tblList = mb
 			ans = "m=" + w.pathsStr(mb)
 			for _, x := range mb {
 				if m, ok := w.meta[x.root()]; ok {
-					tbl[[2]int{m.src, int(m.rid)}] = m.lp
+					tbl[[2]int{m.src, int(m.rid)}] = m.val()
 				}
 			}
 			bySrc := map[int]int{}
@@ -484,25 +569,45 @@ func (w *c02tW) stream(what string, p *c02tPfx, us []*Update) {
 			w.fail("c02t-multipath-set", "%s on %s: the table's multipath set is [%s], the op log says [%s]", what, p.pfx, c02tMpStr(tbl), c02tMpStr(exp))
 		}
 		if c02tMpStr(cons) != c02tMpStr(tbl) {
-			w.fail("c02t-multipath-stream-replay", "%s on %s: consumer held [%s], got update=[%s] withdraw=[%s], now holds [%s]; the table's multipath set is [%s] (src.rid:local-pref)",
+			w.fail("c02t-multipath-stream-replay", "%s on %s: consumer held [%s], got update=[%s] withdraw=[%s], now holds [%s]; the table's multipath set is [%s] (src.rid:local-pref/community)",
 				what, p.pfx, before, w.pathsStr(upd), w.pathsStr(wd), c02tMpStr(cons), c02tMpStr(tbl))
 			// resynchronise, so that one lost withdrawal is reported once
-			cons = map[[2]int]uint32{}
+			cons = map[[2]int]uint64{}
 			for k, v := range tbl {
 				cons[k] = v
 			}
 			w.mpCons[lt][p.show] = cons
 		}
-		if multi != nil && len(tbl) > 0 {
-			mm := map[[2]int]uint32{}
-			for _, x := range multi {
-				if m, ok := w.meta[x.root()]; ok {
-					mm[[2]int{m.src, int(m.rid)}] = m.lp
+		// GetChanges' third result: the watcher replaces its MultiPathList by it whenever it is not nil,
+		// and must then hold the table's multipath set as a list of paths WITH their attributes
+		// (what Path.Equal compares: source, LOCAL_PREF, community — not the path id)
+		sigs := func(ps []*Path) string {
+			l := make([]string, 0, len(ps))
+			for _, x := range ps {
+				if x == nil {
+					l = append(l, "nil")
+				} else if m, ok := w.meta[x.root()]; ok {
+					l = append(l, fmt.Sprintf("%d:%d:%d", m.src, m.lp, m.attr))
 				}
 			}
-			if c02tMpStr(mm) != c02tMpStr(tbl) {
-				w.fail("c02t-multipath-changes", "%s on %s: GetChanges reports the multipath set [%s], the table has [%s]", what, p.pfx, c02tMpStr(mm), c02tMpStr(tbl))
+			return strings.Join(l, ",")
+		}
+		mans := "nil"
+		if multi != nil {
+			w.o.stat("multipath_reports", 1)
+			if len(multi) == 1 && multi[0] != nil && multi[0].IsWithdraw {
+				w.multiCons[lt][p.show] = ""
+				mans = "W:" + w.pathStr(multi[0])
+			} else {
+				w.multiCons[lt][p.show] = sigs(multi)
+				mans = "m=" + w.pathsStr(multi)
 			}
+		}
+		w.o.ask(mans, "mchg %d", lt)
+		if have := w.multiCons[lt][p.show]; have != sigs(tblList) {
+			w.fail("c02t-multipath-changes", "%s on %s: GetChanges reported %s; a watcher applying every non-nil report now holds [%s], the table's multipath set is [%s] (source:local-pref:community per position)",
+				what, p.pfx, mans, have, sigs(tblList))
+			w.multiCons[lt][p.show] = sigs(tblList)
 		}
 		// best-path stream
 		if best != nil {
@@ -510,22 +615,22 @@ func (w *c02tW) stream(what string, p *c02tPfx, us []*Update) {
 				if best.IsWithdraw {
 					delete(w.bestCons[lt], p.show)
 				} else {
-					w.bestCons[lt][p.show] = [2]int{m.src, int(m.lp)}
+					w.bestCons[lt][p.show] = [3]int{m.src, int(m.lp), int(m.attr)}
 				}
 			}
 			w.o.stat("best_path_notifications", 1)
 		}
-		var tb *[2]int
+		var tb *[3]int
 		if d != nil {
 			if b := d.GetBestPath(GLOBAL_RIB_NAME, 0); b != nil {
 				if m, ok := w.meta[b.root()]; ok {
-					tb = &[2]int{m.src, int(m.lp)}
+					tb = &[3]int{m.src, int(m.lp), int(m.attr)}
 				}
 			}
 		}
 		cb, has := w.bestCons[lt][p.show]
 		if (tb == nil) != !has || (tb != nil && *tb != cb) {
-			w.fail("c02t-best-stream-replay", "%s on %s: after the notification the consumer's best path is %v (present %v), the table's is %v (source, local-pref)", what, p.pfx, cb, has, tb)
+			w.fail("c02t-best-stream-replay", "%s on %s: after the notification the consumer's best path is %v (present %v), the table's is %v (source, local-pref, community)", what, p.pfx, cb, has, tb)
 			if tb == nil {
 				delete(w.bestCons[lt], p.show)
 			} else {
@@ -533,21 +638,34 @@ func (w *c02tW) stream(what string, p *c02tPfx, us []*Update) {
 			}
 		}
 	}
+	// reading the notifications (as the server does after every Update) must not touch the inputs either
+	w.recheckInputs()
 }
 
 func (w *c02tW) announce(p *c02tPfx, src int, rid uint32, rej bool) {
+	w.announceX(p, src, rid, rej, 0, uint32(w.r.intn(3)))
+}
+
+// announceX: rank 0 = a new LOCAL_PREF / age (nextRank); otherwise the given one — with the rank of the
+// path it replaces and another community this is an ATTRIBUTE-ONLY replacement: cost, age and position stay
+func (w *c02tW) announceX(p *c02tPfx, src int, rid uint32, rej bool, rank uint64, attr uint32) {
 	w.seq++
 	tag := w.seq
-	rank := w.nextRank(tag)
-	w.note("announce %s src=%d rid=%d tag=%d", p.pfx, src, rid, tag)
+	if rank == 0 {
+		rank = w.nextRank(tag)
+	}
+	w.curAttr = attr
+	w.note("announce %s src=%d rid=%d tag=%d local-pref=%d community=%d", p.pfx, src, rid, tag, rank>>32, attr)
 	lt := c02tLoc(p.fam)
 	path := w.newPath(p, src, rid, rank, false)
-	w.meta[path] = c02tMeta{src, tag, rid, uint32(rank >> 32)}
-	w.o.op("ann %d %s %d %d %d %d 0", lt, p.tok, src, rid, rank, tag)
+	w.meta[path] = c02tMeta{src, tag, rid, uint32(rank >> 32), attr}
+	w.input("TableManager.Update", fmt.Sprintf("announcement %s src=%d rid=%d tag=%d", p.pfx, src, rid, tag), path, false)
+	w.o.op("ann %d %s %d %d %d %d 0 %d 0", lt, p.tok, src, rid, rank, tag, attr)
 	w.movesInPlace(lt, p, src, rid)
 	w.multipathMember(lt, p, src, rid)
+	w.attrOnly(lt, p, src, rid, rank, attr)
 	us := w.tm.Update(path)
-	w.wantPut(lt, p, c02tEnt{src: src, rid: rid, tag: tag, rank: rank}, false)
+	w.wantPut(lt, p, c02tEnt{src: src, rid: rid, tag: tag, rank: rank, attr: attr, obj: path}, false)
 	w.recheck()
 	w.holdUpdates(p.show, us)
 	w.stream(fmt.Sprintf("announcement src=%d rid=%d tag=%d", src, rid, tag), p, us)
@@ -557,14 +675,15 @@ func (w *c02tW) announce(p *c02tPfx, src int, rid uint32, rej bool) {
 		at := c02tAdj(p.fam)
 		ap := w.newPath(p, src, rid, rank, false)
 		ap.SetRejected(rej)
-		w.meta[ap] = c02tMeta{src, tag, rid, uint32(rank >> 32)}
+		w.meta[ap] = c02tMeta{src, tag, rid, uint32(rank >> 32), attr}
+		w.input("AdjRib.Update", fmt.Sprintf("announcement %s rid=%d tag=%d", p.pfx, rid, tag), ap, true)
 		rj := 0
 		if rej {
 			rj = 1
 		}
-		w.o.op("ann %d %s %d %d %d %d %d", at, p.tok, src, rid, rank, tag, rj)
+		w.o.op("ann %d %s %d %d %d %d %d %d 0", at, p.tok, src, rid, rank, tag, rj, attr)
 		w.adj.Update([]*Path{ap})
-		w.wantPut(at, p, c02tEnt{src: src, rid: rid, tag: tag, rank: rank, rej: rej}, true)
+		w.wantPut(at, p, c02tEnt{src: src, rid: rid, tag: tag, rank: rank, rej: rej, attr: attr}, true)
 		w.recheck()
 	}
 }
@@ -599,6 +718,85 @@ func (w *c02tW) checkOthers(what string, p *c02tPfx, src int, rid uint32) {
 	if len(got) > len(w.want[lt][p.show]) {
 		w.fail("c02t-content", "%s of source %d rid %d on %s: %d paths stored, the op log says %d", what, src, rid, p.pfx, len(got), len(w.want[lt][p.show]))
 	}
+}
+
+// input-distribution counter: an attribute-only replacement of a multipath member, by position
+func (w *c02tW) attrOnly(tab int, p *c02tPfx, src int, rid uint32, rank uint64, attr uint32) {
+	l := append([]c02tEnt{}, w.want[tab][p.show]...)
+	sort.Slice(l, func(i, j int) bool { return l[i].rank > l[j].rank })
+	for i, e := range l {
+		if e.rank>>32 != l[0].rank>>32 {
+			break
+		}
+		if e.src == src && e.rid == rid && e.rank == rank && e.attr != attr {
+			w.o.stat(fmt.Sprintf("attribute_only_replacement_of_multipath_member_%d", min(i, 3)), 1)
+		}
+	}
+}
+
+// a locally generated withdrawal, as propagateUpdate makes one when the import policy rejects a
+// path on soft reset in: a CLONE of the stored object, marked withdraw, not dropped.  The object
+// itself stays with the caller (the Adj-RIB-In) and is handed in again later.
+func (w *c02tW) localWithdraw(p *c02tPfx, e c02tEnt) {
+	lt := c02tLoc(p.fam)
+	w.note("local withdrawal (clone of the stored object) %s src=%d rid=%d tag=%d", p.pfx, e.src, e.rid, e.tag)
+	if len(w.want[lt][p.show]) == 1 {
+		w.o.stat("op_local_withdraw_of_the_only_path", 1)
+	} else {
+		w.o.stat("op_local_withdraw_of_one_of_several_paths", 1)
+	}
+	wd := e.obj.Clone(true)
+	w.input("TableManager.Update", fmt.Sprintf("local withdrawal %s src=%d rid=%d", p.pfx, e.src, e.rid), wd, false)
+	w.o.op("wd %d %s %d %d 0", lt, p.tok, e.src, e.rid)
+	w.movesInPlace(lt, p, e.src, e.rid)
+	w.multipathMember(lt, p, e.src, e.rid)
+	us := w.tm.Update(wd)
+	if w.wantDel(lt, p, e.src, e.rid, false) {
+		w.leak[lt][p.show]++
+	}
+	w.recheck()
+	w.holdUpdates(p.show, us)
+	w.stream(fmt.Sprintf("local withdrawal src=%d rid=%d", e.src, e.rid), p, us)
+	w.checkOthers("local withdrawal", p, e.src, e.rid)
+	w.replays = append(w.replays, c02tReplay{p, e})
+}
+
+// the next soft reset in: the SAME object is handed in again and must be a candidate again
+func (w *c02tW) replay(r c02tReplay) {
+	p, e := r.p, r.e
+	lt := c02tLoc(p.fam)
+	if e.src == 1 {
+		// source 1's routes also sit in the Adj-RIB-In: a soft reset in replays only what is still there
+		still := false
+		for _, x := range w.want[c02tAdj(p.fam)][p.show] {
+			still = still || (x.rid == e.rid && x.tag == e.tag)
+		}
+		if !still {
+			w.o.stat("replay_cancelled_route_left_the_adj_rib_in", 1)
+			return
+		}
+	}
+	w.note("the same object again %s src=%d rid=%d tag=%d", p.pfx, e.src, e.rid, e.tag)
+	w.o.stat("op_replay_of_a_locally_withdrawn_object", 1)
+	w.o.op("ann %d %s %d %d %d %d 0 %d %d", lt, p.tok, e.src, e.rid, e.rank, e.tag, e.attr, e.obj.localID)
+	w.movesInPlace(lt, p, e.src, e.rid)
+	w.multipathMember(lt, p, e.src, e.rid)
+	us := w.tm.Update(e.obj)
+	// the object still carries the local id that its (not dropped) local withdrawal left flagged:
+	// unless it replaces a path that came in meanwhile, that id is in use again, not leaked
+	matched := false
+	for _, x := range w.want[lt][p.show] {
+		matched = matched || (x.src == e.src && x.rid == e.rid)
+	}
+	if !matched && w.leak[lt][p.show] > 0 {
+		w.leak[lt][p.show]--
+	}
+	w.wantPut(lt, p, e, false)
+	w.recheck()
+	w.holdUpdates(p.show, us)
+	w.stream(fmt.Sprintf("replay src=%d rid=%d tag=%d", e.src, e.rid, e.tag), p, us)
+	w.checkOthers("replay", p, e.src, e.rid)
+	w.askGet(lt, p)
 }
 
 // input-distribution counter: the operation removes or replaces a path that is not the last of a
@@ -725,6 +923,7 @@ func (w *c02tW) withdraw(p *c02tPfx, src int, rid uint32, dropped bool) {
 	}
 	path := w.newPath(p, src, rid, 0, true)
 	path.SetDropped(dropped)
+	w.input("TableManager.Update", fmt.Sprintf("withdrawal %s src=%d rid=%d", p.pfx, src, rid), path, false)
 	w.o.op("wd %d %s %d %d %d", lt, p.tok, src, rid, d)
 	w.movesInPlace(lt, p, src, rid)
 	w.multipathMember(lt, p, src, rid)
@@ -810,6 +1009,9 @@ func (w *c02tW) pathStr(p *Path) string {
 	m, ok := w.meta[p.root()] // StaleAll / MarkLLGRStaleOrDrop store clones of what was announced
 	if !ok {
 		return "unknown-path"
+	}
+	if w.noLid {
+		return fmt.Sprintf("%d.%d.%d", m.src, m.rid, m.tag)
 	}
 	return fmt.Sprintf("%d.%d.%d.%d", m.src, m.rid, m.tag, p.localID)
 }
@@ -1098,10 +1300,10 @@ func (w *c02tW) askPaths(tab int, view int) {
 			_, _, show := c02tTok(nlriToPrefix(m[0].GetNlri()))
 			l = append(l, show+"="+w.pathsStr(m))
 			if pp := w.byShow(show); pp != nil {
-				got := map[[2]int]uint32{}
+				got := map[[2]int]uint64{}
 				for _, x := range m {
 					if mt, ok := w.meta[x.root()]; ok {
-						got[[2]int{mt.src, int(mt.rid)}] = mt.lp
+						got[[2]int{mt.src, int(mt.rid)}] = mt.val()
 					}
 				}
 				if exp := w.expectMulti(tab, pp); c02tMpStr(exp) != c02tMpStr(got) {
@@ -1465,12 +1667,13 @@ func (w *c02tW) mcAnnounce(p *c02tPfx, rid uint32, rej bool) {
 	w.note("announce (ipv4-multicast, Adj-RIB-In only) %s rid=%d tag=%d", p.pfx, rid, tag)
 	ap := w.newPathF(bgp.RF_IPv4_MC, p, 1, rid, rank, false)
 	ap.SetRejected(rej)
-	w.meta[ap] = c02tMeta{1, tag, rid, uint32(rank >> 32)}
+	w.meta[ap] = c02tMeta{1, tag, rid, uint32(rank >> 32), w.curAttr}
+	w.input("AdjRib.Update", fmt.Sprintf("multicast announcement %s rid=%d tag=%d", p.pfx, rid, tag), ap, true)
 	rj := 0
 	if rej {
 		rj = 1
 	}
-	w.o.op("ann 5 %s 1 %d %d %d %d", p.tok, rid, rank, tag, rj)
+	w.o.op("ann 5 %s 1 %d %d %d %d %d 0", p.tok, rid, rank, tag, rj, w.curAttr)
 	w.adj.Update([]*Path{ap})
 	w.wantPut(5, p, c02tEnt{src: 1, rid: rid, tag: tag, rank: rank, rej: rej}, true)
 	w.recheck()
@@ -1762,13 +1965,48 @@ func (w *c02tW) randomHistory(n int) {
 		src := w.active[w.r.intn(len(w.active))]
 		rid := uint32(w.r.pick(0, 0, 1, 2))
 		switch k := w.r.intn(100); {
+		case k < 3 && len(w.replays) > 0:
+			// the next soft reset in: an object that a local withdrawal took out comes back
+			i := w.r.intn(len(w.replays))
+			r := w.replays[i]
+			w.replays = append(w.replays[:i], w.replays[i+1:]...)
+			p = r.p
+			w.replay(r)
 		case k < 6:
+			// soft reset in under a rejecting policy: a stored object leaves by a withdraw CLONE —
+			// preferably the only path of its destination
+			var cands []c02tReplay
+			single := w.r.chance(60)
+			for _, fam := range []int{4, 6} {
+				for _, q := range w.pool[fam] {
+					l := w.want[c02tLoc(fam)][q.show]
+					if len(l) == 0 || (single && len(l) != 1) {
+						continue
+					}
+					for _, e := range l {
+						if e.obj != nil {
+							cands = append(cands, c02tReplay{q, e})
+						}
+					}
+				}
+			}
+			if len(cands) > 0 {
+				c := cands[w.r.intn(len(cands))]
+				p = c.p
+				w.localWithdraw(c.p, c.e)
+				if w.r.chance(50) {
+					r := w.replays[len(w.replays)-1]
+					w.replays = w.replays[:len(w.replays)-1]
+					w.replay(r)
+				}
+			}
+		case k < 10:
 			kind := w.r.intn(4)
 			if w.anyStale() && w.r.chance(50) {
 				kind = 2 // the sweep after a StaleAll
 			}
 			w.adjPartial(kind, w.randAdjSubset())
-		case k < 12:
+		case k < 15:
 			q := w.pool[4][w.r.intn(len(w.pool[4]))]
 			if w.r.chance(40) { // aim at a multicast destination that exists
 				for _, x := range w.pool[4] {
@@ -1788,6 +2026,13 @@ func (w *c02tW) randomHistory(n int) {
 				p = q // one more path for a destination that exists …
 				if w.r.chance(50) {
 					src, rid = e.src, e.rid // … or an implicit replacement
+					if w.r.chance(45) {
+						// … that changes nothing the decision process looks at: same LOCAL_PREF, same age,
+						// another community (cost, membership and position in the multipath set stay)
+						w.announceX(p, src, rid, w.r.chance(20), e.rank, e.attr+1+uint32(w.r.intn(2)))
+						w.o.stat("op_attribute_only_replacement", 1)
+						break
+					}
 				}
 			}
 			w.announce(p, src, rid, w.r.chance(20))
@@ -2063,6 +2308,63 @@ func (w *c02tW) corpus3() {
 	}
 }
 
+// corpus, fourth part (classes of the seeded changes C03-Q and C03-R)
+func (w *c02tW) corpus4() {
+	// 8. attribute-only replacement of the member at every position of a multipath set of three
+	for pos := 0; pos < 3; pos++ {
+		pos := pos
+		w.guarded(func() {
+			w.reset()
+			w.lpClasses = 1
+			w.active = []int{1, 2, 5, 6}
+			w.note("corpus 8: attribute-only replacement of multipath member %d", pos)
+			for _, p := range []*c02tPfx{w.pool[4][5], w.colls[0][0]} {
+				w.announce(p, 2, 1, false)
+				w.announce(p, 2, 2, false)
+				w.announce(p, 5, 0, false)
+				l := append([]c02tEnt{}, w.want[c02tLoc(p.fam)][p.show]...)
+				sort.Slice(l, func(i, j int) bool { return l[i].rank > l[j].rank })
+				e := l[pos]
+				w.announceX(p, e.src, e.rid, false, e.rank, e.attr+1)
+				w.announceX(p, e.src, e.rid, false, e.rank, e.attr+2)
+				w.askGroup(p)
+				w.askAll(true)
+			}
+		})
+	}
+	// 9. the only path of a destination leaves by a local withdrawal (a clone of the stored object, as
+	//    soft reset in under a rejecting import policy makes one); the same object is handed in again:
+	//    alone, and after another source announced the prefix
+	for _, other := range []bool{false, true} {
+		other := other
+		w.guarded(func() {
+			w.reset()
+			w.note("corpus 9: local withdrawal of the only path, then the same object again (other source in between: %v)", other)
+			for _, p := range []*c02tPfx{w.pool[4][5], w.colls[0][1]} {
+				w.announce(p, 1, 0, false)
+				e := w.want[c02tLoc(p.fam)][p.show][0]
+				w.localWithdraw(p, e)
+				w.askGroup(p)
+				if other {
+					w.announce(p, 2, 0, false)
+				}
+				r := w.replays[len(w.replays)-1]
+				w.replays = w.replays[:len(w.replays)-1]
+				w.replay(r)
+				w.askGroup(p)
+				w.askAll(true)
+				// and once more, with two paths in the destination at removal time
+				w.announce(p, 3, 0, false)
+				w.localWithdraw(p, e)
+				r = w.replays[len(w.replays)-1]
+				w.replays = w.replays[:len(w.replays)-1]
+				w.replay(r)
+				w.askAll(true)
+			}
+		})
+	}
+}
+
 func TestVerifC02T(t *testing.T) {
 	o := vOpen(t)
 	defer o.close()
@@ -2077,6 +2379,7 @@ func TestVerifC02T(t *testing.T) {
 	w.corpus()
 	w.corpus2()
 	w.corpus3()
+	w.corpus4()
 	w.malformedKeys()
 	w.collisionScenarios()
 	histories, steps := 40, 60
